@@ -984,3 +984,24 @@ Lemma iface_assign_refuted :
   /\ of_g KInt8 (go_unary Neg KInt8 5) = YVal (VInt KInt8 (-5))
   /\ run_row (select_bin_ifa Add KInt8) KInt8 (VInt KInt8 100) (VInt KInt8 100) = YVal (VInt KInt8 (-56)).
 Proof. repeat split; vm_compute; reflexivity. Qed.
+
+(** && and ||: value, and in branch context the slot is written on both paths *)
+Definition go_logic (o : bop) (a b : bool) : bool := match o with LAnd => a && b | _ => a || b end.
+
+Lemma logic_rows_full fn o r a b : (o = LAnd \/ o = LOr) -> In r (logic_rows fn o) ->
+  denote r KBool (VBool a) (VBool b) = lift_bool (r_br r) (Ok (go_logic o a b)).
+Proof.
+  intros Ho Hin. cbn in Hin. destruct Hin as [<-|[<-|[<-|[]]]]; destruct Ho as [-> | ->]; destruct a, b; reflexivity.
+Qed.
+
+(** the frame slot after one execution of a branch-context row is the value of the expression,
+    whatever it held before: a later false evaluation cannot leave a stale true *)
+Lemma logic_branch_stores_both_paths :
+  forallb (fun r => negb ((String.eqb (r_fn r) "land" || String.eqb (r_fn r) "lor" || String.eqb (r_fn r) "not") && r_br r)
+                    || (if setter_eq_dec (r_set r) (SBranch true NT false NF) then true else false)) op_table = true.
+Proof. vm_compute. reflexivity. Qed.
+
+Lemma logic_rows_in_table :
+  forallb (fun m => existsb (fun r => if row_eq_dec r m then true else false) op_table)
+          (logic_rows "land" LAnd ++ logic_rows "lor" LOr) = true.
+Proof. vm_compute. reflexivity. Qed.
